@@ -10,7 +10,8 @@ from ufo import build, err_kind
 ID = "C11"
 THEOREM = ("Ufo2ft.C11.C11_unique / findFree_fresh / findFree_fuel_irrelevant / C11_renamed (C11_source, C11_legal) / "
            "C11_distinct + C11_perm_injective (any glyph order, any glyph set; C11_old_collision = counterexample for the "
-           "former seen={}) / validName_eq / autoName_unfold / prodName_fuel / uniName_spec / C11_perm / "
+           "former seen={}) / C11_notdef_kept + C11_notdef_unique ('.notdef' keeps its name and nobody else gets it; "
+           "C11_old_notdef_renamed = counterexample for the former rule) / validName_eq / autoName_unfold / prodName_fuel / uniName_spec / C11_perm / "
            "C11_perm_charStrings / C11_decide / C11_process / C11_reject")
 N = {"quick": 1000, "thorough": 20000}
 RULE = ("three streams. (1) 'unique': PostProcessor._unique_name on random `seen` dicts (arbitrary counters, runs of taken "
@@ -19,7 +20,8 @@ RULE = ("three streams. (1) 'unique': PostProcessor._unique_name on random `seen
         "names, ligatures (2..17 parts, with suffix), names that look like generated ones (uni0061, uni0061.alt, u1F600, "
         "x.1), illegal characters (space,-,@,+,#,/,non-ASCII), names that become equal or empty after cleaning, > 63 "
         "characters, odd dots/underscores; code points none/0/BMP/supplementary; public.postscriptNames absent / {} / maps "
-        "with duplicate, empty, illegal, over-long values, values equal to other glyph names or '.notdef', keys for "
+        "with duplicate, empty, illegal, over-long values, values equal to other glyph names or '.notdef', an entry FOR "
+        "'.notdef' whenever that glyph is in the name set (it is a key like any other: 60 % of the maps of such fonts), keys for "
         "missing glyphs; glyph sets that do not cover the glyph order. (3) 'process': N real builds through compileTTF, "
         "compileOTF (CFF), compileOTF(cffVersion=2), compileVariableTTF, compileVariableCFF2 x useProductionNames "
         "None/True/False x lib useProductionNames / Glyphs' \"Don't use Production Names\" / keepGlyphNames absent/true/false, "
@@ -496,7 +498,9 @@ LEVEL_TEXT = ("Proved for all inputs (Lean): _unique_name's loop stops within |s
               "renamed glyph gets its cleaned candidate (map entry if non-empty, else automatic name; > 63 characters falls "
               "back to the cleaned source name), unchanged when still free (not given out before and not the name of a glyph "
               "that keeps its name) and with a numeric suffix otherwise; ALL final names of the font are pairwise distinct for "
-              "any glyph order and any glyph set, unsourced glyphs such as a synthesised '.notdef' included; all renamed names "
+              "any glyph order and any glyph set, unsourced glyphs such as a synthesised '.notdef' included; the glyph called "
+              "'.notdef' keeps that name at its index whatever public.postscriptNames says, and no other glyph receives it "
+              "(C11_notdef_kept, C11_notdef_unique); all renamed names "
               "consist of [0-9A-Za-z_.]; the automatic name satisfies fuel-free recursion equations (uniXXXX/uXXXXX, suffix, "
               "ligature rules) and its recursion is on strictly shorter names; rename_glyphs maps the glyph order pointwise "
               "(indices untouched) and injectively; the 324-row decision table of "
@@ -507,4 +511,10 @@ LEVEL_NOTE = ("Trusted: Lean kernel + propext/Classical.choice/Quot.sound; the h
               "rests on the measured hypothesis that fontTools' table compilers see names only through indices. The former "
               "defect (seen = {}: a renamed glyph could take the name of a glyph outside the glyph set, e.g. the synthesised "
               "'.notdef' of variable builds) is repaired in /repo; the old function survives only in the counterexample theorem "
-              "C11_old_collision, and the check still names that shape so that a recurrence is reported as a VIOLATION.")
+              "C11_old_collision, and the check still names that shape so that a recurrence is reported as a VIOLATION. "
+              "Second repair: '.notdef' used to be renamed like any other glyph (public.postscriptNames = {'.notdef': 'nd'}), "
+              "after which fontTools cannot write a 'CFF ' table (finding C12-cff1-notdef-renamed, judged by check C12); "
+              "_build_production_names now skips '.notdef' and reserves its name, the model follows (renames / seenInit), the "
+              "spec says '.notdef' keeps its name (holdsRenamed), and the former rule survives only in the counterexample "
+              "C11_old_notdef_renamed over buildProductionNamesOldNotdef; on a tree without the repair this check reports a "
+              "VIOLATION with a failing input (model and predicate both reject the renamed '.notdef').")
